@@ -9,7 +9,7 @@ import (
 	"verifharness/stats"
 )
 
-const ruleC01 = "rapid state machine: generated table schema (hash-only / hash+range, S/N/B keys), then Put / UpdateItem (SET, REMOVE, ADD, DELETE, upsert of absent keys) / DeleteItem (with and without ALL_OLD) / GetItem over a pool of 3-6 keys, a fifth of the writes carrying a generated condition, and writes that are refused (key attribute missing or of the wrong type, wrongly typed index key: the complete internal snapshot must be unchanged; if the implementation accepts a request DynamoDB rejects, the case ends there), executed on the SDK v1 and v2 clients and on the reference map model; after every step GetItem of every pool key, a full Scan, DescribeTable.ItemCount and the SortedKeys/Data white-box invariant are compared. Non-trivial = history touching >= 2 distinct keys and containing an overwrite, a delete-then-reput, an update-created item or a delete of an absent key; distinct = distinct hash of the executed operation list."
+const ruleC01 = "rapid state machine: generated table schema (hash-only / hash+range, S/N/B keys), then Put / UpdateItem (SET, REMOVE, ADD, DELETE, upsert of absent keys) / DeleteItem (with and without ALL_OLD) / GetItem over a pool of 3-6 keys (for number keys in half of the cases adjacent 16-38 digit numbers, then without expressions), a fifth of the writes carrying a generated condition, and writes that are refused (key attribute missing or of the wrong type, wrongly typed index key: the complete internal snapshot must be unchanged; if the implementation accepts a request DynamoDB rejects, the case ends there), executed on the SDK v1 and v2 clients and on the reference map model; after every step GetItem of every pool key, a full Scan, DescribeTable.ItemCount and the SortedKeys/Data white-box invariant are compared. Non-trivial = history touching >= 2 distinct keys and containing an overwrite, a delete-then-reput, an update-created item or a delete of an absent key; distinct = distinct hash of the executed operation list."
 
 // TestC01 decides property C01.
 func TestC01(t *testing.T) {
@@ -21,6 +21,28 @@ func TestC01(t *testing.T) {
 		s := drawSchema(rt, "tbl", schemaCfg{KeyTypes: []string{"S", "S", "N", "B"}, MaxIndexes: 1})
 		o := avOpts(3, true)
 		g := newTgen(rt, s, o, rapid.IntRange(3, 6).Draw(rt, "poolSize"))
+		// number keys that differ only beyond float64 precision: plain Put / Get /
+		// Delete never parse numbers, so the open finding F-FLOAT (about the
+		// expression interpreter) does not apply as long as no expression runs
+		bigNums := (s.Attrs[s.Hash] == "N" || s.Range != "" && s.Attrs[s.Range] == "N") && rapid.Bool().Draw(rt, "bigNumberKeys")
+		if bigNums {
+			bigPool := []string{"9007199254740993", "9007199254740992", "9007199254740994", "12345678901234567890123456789012345678", "12345678901234567890123456789012345679",
+				"0.1234567890123456789", "0.1234567890123456788", "-9007199254740993", "18446744073709551616", "18446744073709551617"}
+			seen := map[string]bool{}
+			var keys []model.Item
+			for _, k := range g.keys {
+				for _, a := range s.KeyAttrs() {
+					if s.Attrs[a] == "N" {
+						k[a] = model.Num(rapid.SampledFrom(bigPool).Draw(rt, "bigKeyPart"))
+					}
+				}
+				if c := model.CanonItem(k); !seen[c] {
+					seen[c] = true
+					keys = append(keys, k)
+				}
+			}
+			g.keys = keys
+		}
 		w.pool[s.Table] = g.keys
 		g.failClasses = []string{"index-key-type-put", "index-key-type-update", "wrong-typed-key", "missing-key-attr"}
 		var flagOverwrite, flagReput, flagUpsert, flagDelAbsent bool
@@ -53,6 +75,9 @@ func TestC01(t *testing.T) {
 				st.Class("schema-hash-only")
 			}
 			st.Class("keytype-" + s.Attrs[s.Hash])
+			if bigNums {
+				st.Class("number-keys-beyond-float64-precision")
+			}
 		}()
 		_, _, f := w.do(model.Op{Kind: "CreateTable", Schema: &s})
 		fail(f)
@@ -74,6 +99,9 @@ func TestC01(t *testing.T) {
 				}
 			},
 			"update": func(rt *rapid.T) {
+				if bigNums {
+					return // no expressions on tables with numbers beyond float64 precision
+				}
 				op := normOp(g.updateOp(rt, w.m, 5))
 				ck := model.CanonItem(op.Key)
 				existed := stored(w.m, s.Table, op.Key) != nil
@@ -104,6 +132,9 @@ func TestC01(t *testing.T) {
 			"condWrite": func(rt *rapid.T) {
 				// the same operations carrying a condition (C05 owns the verdict
 				// of the condition; here the resulting map state matters)
+				if bigNums {
+					return
+				}
 				op := g.condWriteOp(rt, w.m, false)
 				var key model.Item
 				if op.Kind == "Put" {
@@ -140,7 +171,7 @@ func TestC01(t *testing.T) {
 					return
 				}
 				op, class := g.failingOp(rt, w.m)
-				if op.Kind == "Get" {
+				if op.Kind == "Get" || bigNums && op.Kind == "Update" {
 					return
 				}
 				op.TrySpec = true
